@@ -18,8 +18,12 @@ def stepCapped (p : Portfolio) (c : Supply) (d : Debt) (cover : Rat) : Bool :=
   decide (stepMaxColl p c d cover > c.base * c.row.liqIndex)
 def stepCollUsed (p : Portfolio) (c : Supply) (d : Debt) (cover : Rat) : Rat :=
   if stepCapped p c d cover then c.base * c.row.liqIndex else stepMaxColl p c d cover
+/-- the repayment that corresponds to seizing the whole balance -/
+def stepScaled (c : Supply) (d : Debt) : Rat :=
+  c.row.price * (c.base * c.row.liqIndex) / (d.row.price * (1 + c.row.bonus))
+/-- `min(actual_debt_to_liquidate, scaled)` when capped -/
 def stepRepaid (p : Portfolio) (c : Supply) (d : Debt) (cover : Rat) : Rat :=
-  if stepCapped p c d cover then c.row.price * (c.base * c.row.liqIndex) / (d.row.price * (1 + c.row.bonus))
+  if stepCapped p c d cover then (if stepScaled c d < stepToLiq p d cover then stepScaled c d else stepToLiq p d cover)
   else stepToLiq p d cover
 def stepCollBase (p : Portfolio) (c : Supply) (d : Debt) (cover : Rat) : Rat :=
   subBase NumCtx.exact c.base (stepCollUsed p c d cover / c.row.liqIndex)
@@ -32,9 +36,8 @@ theorem doLiquidate_exact_eq (p : Portfolio) (c : Supply) (d : Debt) (cover : Ra
       else if d.base * d.row.borIndex = 0 then .rejected
       else if c.row.price = 0 then .raised .arith p
       else if stepCapped p c d cover = true ∧ d.row.price * (1 + c.row.bonus) = 0 then .raised .arith p
+      else if d.base * d.row.borIndex < stepRepaid p c d cover then .raised .demeter p
       else if c.row.liqIndex = 0 then .raised .arith p
-      else if d.base * d.row.borIndex < stepRepaid p c d cover then
-        .raised .demeter { p with supplies := putSupplyBase p.supplies c.tok (stepCollBase p c d cover) }
       else if d.row.borIndex = 0 then
         .raised .arith { p with supplies := putSupplyBase p.supplies c.tok (stepCollBase p c d cover) }
       else .done { supplies := putSupplyBase p.supplies c.tok (stepCollBase p c d cover),
@@ -73,7 +76,7 @@ theorem doLiquidate_done_inv {p : Portfolio} {c : Supply} {d : Debt} {cover : Ra
   simp only [StepOut.done.injEq] at h
   obtain ⟨hp, ha⟩ := h
   subst hp
-  refine ⟨fun e => h1 (Or.inl e), ?_, h2, h3, h5, h7, not_lt.mp h6, rfl, ha.symm⟩
+  refine ⟨fun e => h1 (Or.inl e), ?_, h2, h3, h6, h7, not_lt.mp h5, rfl, ha.symm⟩
   cases hc : c.coll
   · exact absurd (Or.inr hc) h1
   · rfl
@@ -120,21 +123,47 @@ theorem step_facts (p : Portfolio) {c : Supply} {d : Debt} {cover : Rat}
     refine ⟨hmc, hle, ht0, le_refl _, ?_⟩
     unfold stepMaxColl
     field_simp
-  · -- capped by the balance
+  · -- capped by the balance: in exact arithmetic the scaled-down repayment is strictly below the uncapped one
     have hgt : stepMaxColl p c d cover > c.base * c.row.liqIndex := by
       unfold stepCapped at hcap
       simpa using hcap
     simp only [if_true]
     have hden : 0 < d.row.price * (1 + c.row.bonus) := by positivity
-    refine ⟨hbal, le_refl _, by positivity, ?_, ?_⟩
-    · rw [div_le_iff₀ hden]
+    have hlt : stepScaled c d < stepToLiq p d cover := by
+      unfold stepScaled
+      rw [div_lt_iff₀ hden]
       unfold stepMaxColl at hgt
       have : c.base * c.row.liqIndex < d.row.price * stepToLiq p d cover * (1 + c.row.bonus) / c.row.price := by
         calc c.base * c.row.liqIndex < d.row.price * stepToLiq p d cover / c.row.price * (1 + c.row.bonus) := hgt
           _ = d.row.price * stepToLiq p d cover * (1 + c.row.bonus) / c.row.price := by ring
       rw [lt_div_iff₀ hpc] at this
       nlinarith
-    · field_simp
+    rw [if_pos hlt]
+    refine ⟨hbal, le_refl _, by unfold stepScaled; positivity, le_of_lt hlt, ?_⟩
+    unfold stepScaled
+    field_simp
+
+/-- in exact arithmetic a capped seizure always scales the repayment *down*: the `min` picks the scaled amount -/
+theorem step_capped_repaid (p : Portfolio) {c : Supply} {d : Debt} {cover : Rat}
+    (hcr : c.row.WF) (hdr : d.row.WF) (hcap : stepCapped p c d cover = true) :
+    stepRepaid p c d cover = c.row.price * (c.base * c.row.liqIndex) / (d.row.price * (1 + c.row.bonus)) := by
+  have hpc := hcr.price_pos; have hb := hcr.bonus_nonneg; have hpd := hdr.price_pos
+  have hgt : stepMaxColl p c d cover > c.base * c.row.liqIndex := by
+    unfold stepCapped at hcap
+    simpa using hcap
+  have hden : 0 < d.row.price * (1 + c.row.bonus) := by positivity
+  have hlt : stepScaled c d < stepToLiq p d cover := by
+    unfold stepScaled
+    rw [div_lt_iff₀ hden]
+    unfold stepMaxColl at hgt
+    have : c.base * c.row.liqIndex < d.row.price * stepToLiq p d cover * (1 + c.row.bonus) / c.row.price := by
+      calc c.base * c.row.liqIndex < d.row.price * stepToLiq p d cover / c.row.price * (1 + c.row.bonus) := hgt
+        _ = d.row.price * stepToLiq p d cover * (1 + c.row.bonus) / c.row.price := by ring
+    rw [lt_div_iff₀ hpc] at this
+    nlinarith
+  unfold stepRepaid
+  rw [if_pos hcap, if_pos hlt]
+  rfl
 
 /-! ### `putSupplyBase` / `putDebtBase` (assignment of the new scaled balance, `del` when it is 0) -/
 
